@@ -103,9 +103,9 @@ class C11(Prop):
     #: a decorator behaves by the VALUE its constructor arguments had at construction.  How the arguments are handed over is a
     #: realisation detail of the input: the kind cycles per argument, mutable ones are changed after construction and between events
     KINDS = ['scratch', 'set', 'list', 'frozenset', 'generator', 'tuple', 'scratch', 'list']
-    #: CopyStreamResult / StreamTagger keep the caller's `targets` LIST by reference (`self.targets = targets`): a list that is
-    #: changed afterwards changes the decorator.  Recorded as a defect candidate (see DESIGN D.3 round h); generated only when set.
-    MUTATE_TARGETS = bool(__import__('os').environ.get('TTV_C11_MUTATE_TARGETS'))
+    #: CopyStreamResult / StreamTagger used to keep the caller's `targets` LIST by reference (`self.targets = targets`): a list that
+    #: was changed afterwards changed the decorator (repaired in /repo, see KNOWN_FINDINGS.txt); the realisation is always generated
+    MUTATE_TARGETS = True
 
     def tag_arg(self, ns, ctx):
         """the `add` / `discard` argument of a StreamTagger for the tags `ns`"""
